@@ -264,6 +264,18 @@ func init() {
 		"fmt.Errorf": func(in *Interp, st *State, fn *ssa.Function, args []Value, instr ssa.Instruction) (Value, bool) {
 			return IfaceVal{typ: opaqueErrType, v: "error"}, true
 		},
+		// gjson.Get is a pure function of its (immutable) string arguments: the result is an arbitrary Result that
+		// either exists or not (only Exists() is consulted by the serialisers that reach it)
+		"github.com/tidwall/gjson.Get": func(in *Interp, st *State, fn *ssa.Function, args []Value, instr ssa.Instruction) (Value, bool) {
+			rt := fn.Signature.Results().At(0).Type()
+			z := zeroValue(rt).(*Agg)
+			out := make([]Value, len(z.elems))
+			copy(out, z.elems)
+			name := fmt.Sprintf("gjson.Get(%v,%v)", args[0], args[1])
+			b := Var(name+".exists", SBool, 0)
+			out[0] = &Choice{alts: []Alt{{b, int64(5)}, {Not(b), int64(0)}}}
+			return &Agg{elems: out}, true
+		},
 		"strings.Index": func(in *Interp, st *State, fn *ssa.Function, args []Value, instr ssa.Instruction) (Value, bool) {
 			return int64(strings.Index(concreteStr(args[0], "strings.Index s"), concreteStr(args[1], "strings.Index sep"))), true
 		},
@@ -273,9 +285,8 @@ func init() {
 		"strconv.AppendFloat": func(in *Interp, st *State, fn *ssa.Function, args []Value, instr ssa.Instruction) (Value, bool) {
 			f := args[1].(FVal)
 			in.oblige("assert", "AppendFloat reached with a non-finite value", And(st.abs(), Not(f.isFin())), in.posOf(instr))
-			dst := args[0].(SliceVal)
 			o := in.newObject(st, &Agg{elems: []Value{FTok{f: f}}}, "ftok")
-			return in.doAppend(st, dst, SliceVal{obj: o, len: 1, cap: 1}, instr), true
+			return in.appendChoice(st, args[0], SliceVal{obj: o, len: 1, cap: 1}, instr), true
 		},
 	}
 	for _, w := range []int{16, 32, 64} {
